@@ -22,7 +22,17 @@ func init() {
 func init() {
 	register(&PropCheck{
 		ID: "C01", Pkgs: []string{"frame"}, FnRe: `^VerifC01_`, Level: "model_checking",
-		Gen:  func(c *CheckCtx) error { return genFrameHarnesses(c, "VerifC01_RT", `verifRoundTrip(%q, %s, verifModeC01)`) },
+		Gen: func(c *CheckCtx) error {
+			if err := genFrameHarnesses(c, "VerifC01_RT", `verifRoundTrip(%q, %s, verifModeC01)`); err != nil {
+				return err
+			}
+			// compression ratios the real libraries reach on these few-byte bodies are close to 1:1; the high-ratio
+			// regime (where lz4.decompress gave up at 8:1) is C08's subject, with inputs long enough to replay natively
+			if err := genFrameHarnesses(c, "VerifC01_LZ4", `verifRoundTripCompressed(%q, %s, 0, 2)`); err != nil {
+				return err
+			}
+			return genFrameHarnesses(c, "VerifC01_Snappy", `verifRoundTripCompressed(%q, %s, 1, 2)`)
+		},
 		Rule: "one harness per (message kind, protocol version); a case is a feasible path = one shape (subset of optional parts, dynamic types, lengths) with every scalar field and byte symbolic; non-trivial = has symbolic branches or solver-discharged assertions",
 	})
 }
@@ -32,5 +42,13 @@ func init() {
 		ID: "C02", Pkgs: []string{"frame"}, FnRe: `^VerifC02_`, Level: "model_checking",
 		Gen:  func(c *CheckCtx) error { return genFrameHarnesses(c, "VerifC02_Spec", `verifConformance(%q, %s)`) },
 		Rule: "one harness per (message kind, version): bytes of the real encoder vs. an independent reference encoder written from the specs, both executed symbolically on the same arbitrary version-valid frame; plus the header rejection harness over all 2^72 header byte strings",
+	})
+}
+
+func init() {
+	register(&PropCheck{
+		ID: "C05", Pkgs: []string{"frame"}, FnRe: `^VerifC05_`, Level: "model_checking",
+		Gen:  func(c *CheckCtx) error { return genFrameHarnesses(c, "VerifC05_Ops", `verifPartialOps(%q, %s)`) },
+		Rule: "one harness per (message kind, version): every raw/partial codec path on the bytes of an arbitrary version-valid frame followed by an arbitrary suffix; plus re-encode harnesses on fully symbolic inputs",
 	})
 }
